@@ -7,7 +7,7 @@ git checkout -q -- include 2>/dev/null
 sh "$S/demo.sh" "$W/include" > "$W/../confirm_clean_$(basename $W).log" 2>&1; RC_CLEAN=$?
 git apply "$S/patch.diff" || { echo "APPLY-FAILED"; exit 1; }
 sh "$S/demo.sh" "$W/include" > "$W/../confirm_mut_$(basename $W).log" 2>&1; RC_MUT=$?
-SUITE=$(/tmp/mut/build_and_test.sh "$W" 2>&1 | tail -1)
+SUITE=$(/verif/tools/build_and_test.sh "$W" 2>&1 | tail -1)
 git checkout -q -- include
 echo "clean_demo_rc=$RC_CLEAN mutated_demo_rc=$RC_MUT suite='$SUITE'"
 tail -2 "$W/../confirm_mut_$(basename $W).log" | cut -c1-200
